@@ -321,13 +321,13 @@ func mkContext(hdrs map[string]int, timeoutMs int) frugal.FContext {
 
 // expectedFrame is the frame a correct client must hand to the transport: 4-byte size,
 // headers, message. Computed with the same protocol on a plain (unbounded) memory buffer.
-func expectedFrame(pf *frugal.FProtocolFactory, fctx frugal.FContext, method string, args thrift.TStruct) ([]byte, int, []recOp) {
+func expectedFrame(pf *frugal.FProtocolFactory, fctx frugal.FContext, method string, args thrift.TStruct, kind thrift.TMessageType) ([]byte, int, []recOp) {
 	ctx := context.Background()
 	mem := thrift.NewTMemoryBuffer()
 	p := pf.GetProtocol(mem)
 	p.WriteRequestHeader(fctx)
 	hdr := mem.Len()
-	p.WriteMessageBegin(ctx, method, thrift.CALL, 0)
+	p.WriteMessageBegin(ctx, method, kind, 0)
 	args.Write(ctx, p)
 	p.WriteMessageEnd(ctx)
 	p.Flush(ctx)
@@ -338,7 +338,7 @@ func expectedFrame(pf *frugal.FProtocolFactory, fctx frugal.FContext, method str
 
 	rec := &recTransport{}
 	q := pf.GetProtocol(rec)
-	q.WriteMessageBegin(ctx, method, thrift.CALL, 0)
+	q.WriteMessageBegin(ctx, method, kind, 0)
 	args.Write(ctx, q)
 	q.WriteMessageEnd(ctx)
 	q.Flush(ctx)
@@ -421,8 +421,30 @@ func doCall(q request) response {
 		echo.proto, echo.argsHint, echo.reply, echo.rhdrs, echo.limit = q.Proto, argv, replyv, rhdrs, srvLimit
 		echo.got, echo.argsSeen, echo.repHdr, echo.repOps, echo.errOps, echo.minHdr, echo.errMsg = 0, "", 0, nil, nil, 0, 0
 		echo.mu.Unlock()
-		want, hdr, ops := expectedFrame(pf, fctx, method, args)
-		err := client.Call(fctx, method, args, result)
+		mtype := thrift.CALL
+		if full && q.Oneway {
+			mtype = thrift.ONEWAY
+		}
+		want, hdr, ops := expectedFrame(pf, fctx, method, args, thrift.TMessageType(mtype))
+		var err error
+		if full && q.Oneway {
+			err = client.Oneway(fctx, method, args)
+			if err == nil && ne != nil {
+				// nobody waits for the answer: give the server's worker time to finish
+				for i := 0; i < 1000; i++ {
+					echo.mu.Lock()
+					g := echo.got
+					echo.mu.Unlock()
+					if g > 0 {
+						break
+					}
+					time.Sleep(2 * time.Millisecond)
+				}
+				time.Sleep(5 * time.Millisecond)
+			}
+		} else {
+			err = client.Call(fctx, method, args, result)
+		}
 		code, msg := classify(err)
 		var sent, replies []int
 		sentOK := true
